@@ -227,3 +227,15 @@ DRV(drv_random_make_uniform_container)
   }
 DRV(drv_random_wrapper_uniform_container) { M(drv_r::int_vector) M(drv_r::int_vector const) }
 #undef M
+
+// Members that were ill-formed before the "fix:" commit for random::distribution::basic; instantiated
+// here so that the delegation / parameter-translation rules of C20 see them.
+#define M(P)                                                                                        \
+  {                                                                                                 \
+    using dist = fcppt::random::distribution::basic<drv_r::P>;                                      \
+    (void)drv::lv<dist>()(drv::lv<drv_r::minstd>(), drv::clv<drv_r::P>());                          \
+    (void)drv::clv<dist>().param();                                                                 \
+    (void)drv_r::P::convert_to(drv::clv<typename drv_r::P::distribution>());                        \
+  }
+DRV(drv_random_basic_param_members) { M(p_int) M(p_long) M(p_strong) M(p_enum) M(p_real) M(p_normal) }
+#undef M
